@@ -1,6 +1,7 @@
 package core
 
 import (
+	schema "github.com/jsightapi/jsight-schema-core"
 	"github.com/jsightapi/jsight-schema-core/notations/jschema/ischema"
 
 	"github.com/jsightapi/jsight-api-core/directive"
@@ -9,6 +10,9 @@ import (
 type PieceOfPathVariable struct {
 	node  ischema.Node
 	types map[string]ischema.Type
+
+	// ast the AST node of the property if it is taken from a user type (nil otherwise).
+	ast *schema.ASTNode
 
 	// pathDirective the Path directive which defines this piece (nil for imitated).
 	pathDirective *directive.Directive
